@@ -4,6 +4,9 @@ package vc
 
 import (
 	"fmt"
+	"regexp"
+	"strconv"
+	"strings"
 )
 
 type provider interface {
@@ -28,6 +31,7 @@ func (s *state) get(u *Unit, key string) string {
 	if t, ok := s.over[key]; ok {
 		if t == "\x00havoc" {
 			t = u.declConst("hv_"+key, u.keySort[key])
+			u.heapTyping(key, t)
 			s.over[key] = t
 		}
 		return t
@@ -35,10 +39,23 @@ func (s *state) get(u *Unit, key string) string {
 	return s.base.get(u, key)
 }
 
+// set overrides a whole key (wholesale write: no per-reference frame information)
 func (s *state) set(key, term string) {
 	s.over[key] = term
 	for _, w := range s.ws {
 		w[key] = true
+		w["whole|"+key] = true
+	}
+}
+
+// setAt overrides a key by a store at the given object reference(s)
+func (s *state) setAt(key, term string, refs ...string) {
+	s.over[key] = term
+	for _, w := range s.ws {
+		w[key] = true
+		for _, r := range refs {
+			w["ref|"+key+"|"+r] = true
+		}
 	}
 }
 
@@ -67,6 +84,7 @@ func (p *entryProv) get(u *Unit, key string) string {
 	if key == allocKey {
 		u.assert("(>= " + n + " 0)")
 	}
+	u.heapTyping(key, n)
 	p.cache[key] = n
 	return n
 }
@@ -79,6 +97,7 @@ type havocProv struct {
 	finalized bool
 	modified  map[string]bool
 	all       bool // everything modified (unknown call in the loop)
+	startN    int  // unit fresh-name counter when the loop was entered
 }
 
 func (p *havocProv) get(u *Unit, key string) string {
@@ -100,7 +119,57 @@ func (p *havocProv) get(u *Unit, key string) string {
 		u.assert("(>= " + n + " " + p.prev.get(u, key) + ")")
 	}
 	p.cache[key] = n
+	u.heapTyping(key, n)
+	if p.finalized {
+		p.frameAxiom(u, key, n)
+	}
 	return n
+}
+
+var bangNum = regexp.MustCompile(`!([0-9]+)`)
+
+// frameAxiom: if the loop writes key only at loop-invariant references or at references
+// allocated inside the loop, every other pre-existing object is unchanged.
+func (p *havocProv) frameAxiom(u *Unit, key, hdr string) {
+	if p.all || !p.modified[key] || p.modified["whole|"+key] || key == allocKey || !strings.HasPrefix(u.keySort[key], "(Array Int ") {
+		return
+	}
+	var excl []string
+	pre := "ref|" + key + "|"
+	for _, k := range sortedKeys(p.modified) {
+		if !strings.HasPrefix(k, pre) {
+			continue
+		}
+		ref := k[len(pre):]
+		if u.freshRefs[ref] {
+			continue // allocated inside the loop (or before it: then also covered below)
+		}
+		inv := true
+		for _, m := range bangNum.FindAllStringSubmatch(ref, -1) {
+			n, _ := strconv.Atoi(m[1])
+			if n > p.startN {
+				inv = false
+			}
+		}
+		if !inv {
+			return
+		}
+		excl = append(excl, ref)
+	}
+	// fresh refs created before the loop are loop-invariant terms too: exclude them explicitly
+	for _, k := range sortedKeys(p.modified) {
+		if strings.HasPrefix(k, pre) {
+			ref := k[len(pre):]
+			if u.freshRefs[ref] {
+				excl = append(excl, ref)
+			}
+		}
+	}
+	cond := "(<= r " + p.prev.get(u, allocKey) + ")"
+	for _, e := range excl {
+		cond += " (not (= r " + e + "))"
+	}
+	u.assert(fmt.Sprintf("(forall ((r Int)) (! (=> (and %s) (= (select %s r) (select %s r))) :pattern ((select %s r))))", cond, hdr, p.prev.get(u, key), hdr))
 }
 
 func (p *havocProv) finalize(u *Unit, modified map[string]bool, all bool) {
@@ -113,6 +182,8 @@ func (p *havocProv) finalize(u *Unit, modified map[string]bool, all bool) {
 	for _, k := range sortedKeys(p.cache) {
 		if !modified[k] {
 			u.assert("(= " + p.cache[k] + " " + p.prev.get(u, k) + ")")
+		} else {
+			p.frameAxiom(u, k, p.cache[k])
 		}
 	}
 }
